@@ -182,6 +182,9 @@ func build(t target, d *dynamicpb.Message) (any, error) {
 	if emptyNonNil {
 		pokeEmpty(reflect.ValueOf(g), d.Descriptor(), 0)
 	}
+	if nilElems {
+		nilElemsPoked += pokeNilElems(reflect.ValueOf(g), d.Descriptor(), 0)
+	}
 	return g, nil
 }
 
